@@ -1,4 +1,3 @@
 package main
 
-func runFault(path string) { panic("not built yet") }
 func runCodec(path string) { panic("not built yet") }
